@@ -241,7 +241,7 @@ func (t *TupleType) IsAssignable(o px.Type, g px.Guard) bool {
 			return false
 		}
 		top := len(t.types)
-		if top == 0 || o.size.max == 0 {
+		if top == 0 || o.size.max <= 0 {
 			return true
 		}
 		elemType := o.typ
